@@ -164,6 +164,29 @@ fn bare_safe(key: &str) -> bool {
 	true
 }
 
+/// Characters which are not printable in YAML, or which it treats as line breaks:
+/// those can't appear raw even in a quoted scalar
+fn needs_yaml_escape(c: char) -> bool {
+	matches!(c, '\u{7f}'..='\u{9f}' | '\u{2028}' | '\u{2029}' | '\u{fffe}' | '\u{ffff}')
+}
+
+/// JSON escaping is valid in YAML double-quoted scalars, but some characters, allowed by JSON, aren't
+fn escape_string_yaml_buf(s: &str, buf: &mut String) {
+	if !s.contains(needs_yaml_escape) {
+		escape_string_json_buf(s, buf);
+		return;
+	}
+	let mut escaped = String::new();
+	escape_string_json_buf(s, &mut escaped);
+	for c in escaped.chars() {
+		if needs_yaml_escape(c) {
+			write!(buf, "\\u{:04x}", c as u32).unwrap();
+		} else {
+			buf.push(c);
+		}
+	}
+}
+
 #[allow(dead_code)]
 fn manifest_yaml_ex(val: &Val, options: &YamlFormat<'_>) -> Result<String> {
 	let mut out = String::new();
@@ -191,6 +214,12 @@ fn manifest_yaml_ex_buf(
 			let s = s.clone().into_flat();
 			if s.is_empty() {
 				buf.push_str("\"\"");
+			} else if s.contains('\n')
+				&& s.contains(|c: char| {
+					c != '\n' && c != '\t' && (c.is_control() || needs_yaml_escape(c))
+				}) {
+				// There are no escapes in block scalars
+				escape_string_yaml_buf(&s, buf);
 			} else if let Some(s) = s.strip_suffix('\n') {
 				buf.push('|');
 				for line in s.split('\n') {
@@ -210,7 +239,7 @@ fn manifest_yaml_ex_buf(
 			} else if !options.quote_values && bare_safe(&s) {
 				buf.push_str(&s);
 			} else {
-				escape_string_json_buf(&s, buf);
+				escape_string_yaml_buf(&s, buf);
 			}
 		}
 		Val::Num(n) => write!(buf, "{}", *n).unwrap(),
@@ -269,7 +298,7 @@ fn manifest_yaml_ex_buf(
 				if !options.quote_keys && bare_safe(&key) {
 					buf.push_str(&key);
 				} else {
-					escape_string_json_buf(&key, buf);
+					escape_string_yaml_buf(&key, buf);
 				}
 				buf.push(':');
 				let prev_len = cur_padding.len();
